@@ -141,15 +141,16 @@ func (r *Resp) String() string {
 }
 
 type Req struct {
-	Method  string
-	Target  string // raw request target, sent as is (path + ?query)
-	Header  map[string]string
-	Body    []byte
-	Cred    Cred
-	SignAs  *Cred // when set, the signature is computed with these credentials but Cred.Access is announced
-	NoAuth  bool
-	Time    time.Time
-	Payload string // x-amz-content-sha256 value; default hex sha256 of the body
+	Method     string
+	Target     string // raw request target, sent as is (path + ?query)
+	Header     map[string]string
+	Body       []byte
+	Cred       Cred
+	SignAs     *Cred // when set, the signature is computed with these credentials but Cred.Access is announced
+	NoAuth     bool
+	Time       time.Time
+	Payload    string // x-amz-content-sha256 value; default hex sha256 of the body
+	SignTarget string // when set: the target the signature is computed over (Target is what goes on the wire)
 }
 
 // Do signs (header SigV4, the repository's own signer with the gateway's settings) and sends the raw request.
@@ -171,7 +172,15 @@ func (g *GW) Do(r Req) *Resp {
 		}
 		hdr["X-Amz-Content-Sha256"] = payload
 		hdr["X-Amz-Date"] = r.Time.Format("20060102T150405Z")
-		hreq, err := http.NewRequest(r.Method, "http://"+g.Addr+r.Target, bytes.NewReader(r.Body))
+		st := r.Target
+		if r.SignTarget != "" {
+			st = r.SignTarget
+		}
+		full := "http://" + g.Addr + st
+		if !strings.HasPrefix(st, "/") {
+			full = st // as the gateway rebuilds it: a relative reference without host
+		}
+		hreq, err := http.NewRequest(r.Method, full, bytes.NewReader(r.Body))
 		if err != nil {
 			g.T.Fatalf("cannot build request for signing: %v", err)
 		}
